@@ -115,3 +115,32 @@ func (c *Ctx) ruleNsDeref(rule string) {
 	c.R.Note("%s: linked-only RefSchema methods: %d; %d functions reachable from %d ApplyNamespace methods; %d uses of a child object", rule, len(linkedOnly), len(reach), len(roots), n)
 	c.R.Floor(rule, 1)
 }
+
+// R-LOADLINK (C09 "namespaced references ... rebuilt from the description", C14 "applying one namespace leaves
+// references to other namespaces untouched"): a loader links the self namespace of what it returns; references into
+// other namespaces are linked later by whoever owns those namespaces, so right after loading they are legitimately
+// unlinked. ValidateReferences fails exactly when some reference is unlinked - a loader that consults it rejects every
+// description that contains a namespaced reference, although the schema it describes was constructed, works and
+// describes itself. Obligation: no ValidateReferences method is reachable from a loader.
+func (c *Ctx) ruleLoadLink(rule string) {
+	entries := c.entryLoad()
+	reach := c.M.Reachable(entries, nil)
+	k := key(rule, "loaders", "no loader consults ValidateReferences")
+	bad := ""
+	for _, fn := range c.M.SortedFuncs(reach) {
+		if fn.Name() == "ValidateReferences" && fn.Signature.Recv() != nil {
+			continue
+		}
+		for _, e := range c.M.Edges(fn) {
+			if e.To.Name() == "ValidateReferences" && e.To.Signature.Recv() != nil && e.Site != nil {
+				bad = c.M.InstrPos(e.Site) + " (in " + c.M.Key(fn) + ")"
+			}
+		}
+	}
+	if bad == "" {
+		c.R.Ok(rule, k, "-", "what the loaders demand of references", sprintf("%d functions reachable from %d loaders; none calls ValidateReferences", len(reach), len(entries)))
+	} else {
+		c.R.Bad(rule, k, strings.SplitN(bad, " ", 2)[0], "a loader consults ValidateReferences",
+			"at "+bad+": references into namespaces other than the loaded scope's own are not linked yet (their owner applies them later), so the loader now rejects the description of every constructible schema that uses a namespaced reference")
+	}
+}
